@@ -1,7 +1,7 @@
 (* C15, part 3: for every case the model's output equals the specification's output (what Run/C15.v computes for
    sub 0 and sub 1), so the equality test the check applies to the implementation is a test against the specification. *)
 From Coq Require Import List ZArith Lia Bool.
-From V Require Import Lib.Enc Gen.StrzStd Model.Strconv Model.Hex Run.C15 Proofs.StrconvLoop Proofs.HexCodec Proofs.HexInPlace.
+From V Require Import Lib.Enc Gen.StrzStd Model.Strconv Model.Hex Run.C15 Model.StrconvGrammar Proofs.StrconvLoop Proofs.StrconvGrammarLit Proofs.HexCodec Proofs.HexInPlace.
 Import ListNotations.
 Local Open Scope Z_scope.
 
@@ -9,7 +9,7 @@ Theorem model_equals_spec k a b l1 l2 tbl :
   (k = 10 -> 0 <= a < 2 ^ 32) -> run false k a b l1 l2 tbl = run true k a b l1 l2 tbl.
 Proof.
   intros H10. unfold run.
-  destruct (Z.eqb_spec k 0); [cbn [andb]; rewrite parse_uint_refines_spec; reflexivity|].
+  destruct (Z.eqb_spec k 0); [cbn [andb]; rewrite parse_uint_is_grammar; reflexivity|].
   destruct (Z.eqb_spec k 1); [unfold spec_hex_encode; rewrite hex_encode_is_spec; reflexivity|].
   destruct (Z.eqb_spec k 2); [rewrite hex_decode_is_spec; reflexivity|].
   destruct (Z.eqb_spec k 3); [rewrite inplace_spec; destruct (hex_spec l1); reflexivity|].
